@@ -605,6 +605,9 @@ enum Op {
     StringDistribution,
     Liar,
     LiarDistribution,
+    /// honest values around a lying one: [honest, liar] and [honest, liar, honest]
+    LiarLaterInDistribution,
+    LiarInTheMiddleOfDistribution,
     LiarMean,
     InnerError,
 }
@@ -660,6 +663,8 @@ where
         Op::StringDistribution => record(&Distribution::<StrMetric<A>>::from_iter([StrMetric(PhantomData)]).with_unit::<B>()),
         Op::Liar => record(&Liar::<A>::new(w).with_unit::<B>()),
         Op::LiarDistribution => record(&Distribution::<Liar<A>>::from_iter([Liar::new(w)]).with_unit::<B>()),
+        Op::LiarLaterInDistribution => record(&Distribution::<Liar<A>>::from_iter([Liar::new(A::UNIT), Liar::new(w)]).with_unit::<B>()),
+        Op::LiarInTheMiddleOfDistribution => record(&Distribution::<Liar<A>, 4>::from_iter([Liar::new(A::UNIT), Liar::new(w), Liar::new(A::UNIT)]).with_unit::<B>()),
         Op::LiarMean => mean_calls(Mean::<A>::try_new([&Liar::<A>::new(w)])),
         Op::InnerError => record(&ErrVal::<A>(PhantomData).with_unit::<B>()),
     }
@@ -798,6 +803,11 @@ fn pair_run(st: &mut St, an: &'static str, bn: &'static str, f: PairFns) {
         expect_error(st, format!("unit-mismatch-not-rejected:{an}->{bn}"), format!("value promising {an} wrote `{}` under WithUnit<_, {bn}>", w.name()), &calls, None);
         let calls = emit(Op::LiarDistribution, &[], w);
         expect_error(st, format!("unit-mismatch-in-distribution-not-rejected:{an}->{bn}"), format!("Distribution of a value promising {an} that wrote `{}`, under WithUnit<_, {bn}>", w.name()), &calls, None);
+        for (op, pos) in [(Op::LiarLaterInDistribution, "second"), (Op::LiarInTheMiddleOfDistribution, "middle")] {
+            let calls = emit(op, &[], w);
+            expect_error(st, format!("unit-mismatch-in-distribution-not-rejected:{pos}-value:{an}->{bn}"), format!("Distribution whose {pos} value, promising {an}, wrote `{}` (the others are honest), under WithUnit<_, {bn}>", w.name()), &calls, None);
+            st.validation_cases += 1;
+        }
         st.validation_cases += 1;
         st.tick("validation", 1);
         let calls = emit(Op::LiarMean, &[], w);
